@@ -188,7 +188,7 @@ func ruleC15NameFamilies(r *Run, p *Program, rule string) {
 	if hasBac {
 		rm := false
 		for _, s := range sites {
-			if s.Op == "Remove" && s.Fn == "pogreb.removeRecoveryBackupFiles" {
+			if s.Op == "Remove" && ctxHasFn(s.Ctx, "pogreb.removeRecoveryBackupFiles") {
 				rm = true
 			}
 		}
@@ -196,17 +196,27 @@ func ruleC15NameFamilies(r *Run, p *Program, rule string) {
 	}
 	// the backup removal only removes *.bac
 	if f := p.Fn("pogreb.removeRecoveryBackupFiles"); r.anchor(rule, "pogreb.removeRecoveryBackupFiles", f != nil) {
-		var rm ssa.Instruction
-		instrsOf(f, func(in ssa.Instruction) {
-			if c, ok := in.(*ssa.Call); ok && isInvoke(&c.Call, "fs.FileSystem", "Remove") {
-				rm = c
-			}
+		rms := findWorkDeep(p, f, func(in ssa.Instruction) bool {
+			c, ok := in.(*ssa.Call)
+			return ok && isInvoke(&c.Call, "fs.FileSystem", "Remove")
 		})
-		if r.anchor(rule, "Remove in removeRecoveryBackupFiles", rm != nil) {
-			okv := controlledBy(f, rm, func(c *Cond) bool { return strConstEq(c, ".bac") })
-			r.check(okv, rule, "pogreb.removeRecoveryBackupFiles:only-bac", p.Pos(rm.Pos()), "only names with extension .bac are removed", "the end-of-recovery clean-up can remove files that are not recovery backups")
+		if r.anchor(rule, "Remove in removeRecoveryBackupFiles", len(rms) > 0) {
+			for _, nd := range rms {
+				okv := controlledDeep(nd, func(c *Cond) bool { return strConstEq(c, ".bac") })
+				r.check(okv, rule, "pogreb.removeRecoveryBackupFiles:only-bac", p.Pos(nd.In.Pos()), "only names with extension .bac are removed", "the end-of-recovery clean-up can remove files that are not recovery backups")
+			}
 		}
 	}
+}
+
+// ctxHasFn: some frame of the call string is the function with the given key.
+func ctxHasFn(ctx *Ctx, key string) bool {
+	for ; ctx != nil; ctx = ctx.Parent {
+		if funcKey(ctx.Fn) == key {
+			return true
+		}
+	}
+	return false
 }
 
 // ruleC15CurSegLive: no I/O through datalog.curSeg (directly or in a callee it is passed to) unless the segment is known
